@@ -1235,6 +1235,23 @@ pub fn run(ctx: &mut Ctx, prop: &str) {
             *rng.pick(&[12usize, 25, 40])
         };
         let mut case = gen_history(&mut rng, &kind, shape, max_len, fault_pct);
+        // one history in thirty starts with a warm-up: 70-150 arguments created and removed again (ids
+        // beyond 64 and 128, hundreds of buffered events, retired variables) before the history proper
+        if !matches!(kind, DynKind::Dummy(_)) && rng.pct(3) {
+            let labels: Vec<usize> = (0..3).map(|k| 1_000 + k).collect();
+            let mut warm: Vec<HOp> = Vec::new();
+            for j in 0..rng.range(70, 150) {
+                let l = labels[j % labels.len()];
+                warm.push(HOp::Upd(Op::AddArg(l)));
+                if rng.pct(15) {
+                    warm.push(HOp::Query(rng.pct(50), l, rng.pct(50)));
+                }
+                warm.push(HOp::Upd(Op::DelArg(l)));
+            }
+            warm.append(&mut case.ops);
+            case.ops = warm;
+            case.shape = format!("warm-up+{}", case.shape);
+        }
         // one history in twelve is put to an object built by a constructor that takes no factory
         // (`new`, `Default`, `new_with_arg_factor`): configurations a user reaches first
         if !matches!(kind, DynKind::Dummy(_)) && rng.pct(8) {
